@@ -264,6 +264,95 @@ fn unserializable_alike(src: &str, p: &crate::bytecode::program::Program, ctx: &
     Ok(())
 }
 
+/// AST files nobody's parser writes: `fml compile` reads whatever tree the file holds.  Empty
+/// statement lists, a tree without the `Top` wrapper, wrappers inside wrappers, empty member and
+/// argument lists.  What the compiler makes of them is not the question; that every build and
+/// every run makes the same of them is.
+fn odd_asts() -> Vec<(&'static str, crate::parser::AST)> {
+    use crate::parser::{Identifier, AST};
+    let b = |a: AST| Box::new(a);
+    let id = |s: &str| Identifier(s.to_string());
+    vec![
+        ("top-empty", AST::Top(vec![])),
+        ("top-of-empty-block", AST::Top(vec![b(AST::Block(vec![]))])),
+        ("top-of-two-empty-blocks", AST::Top(vec![b(AST::Block(vec![])), b(AST::Block(vec![]))])),
+        ("no-top-wrapper-integer", AST::Integer(7)),
+        ("no-top-wrapper-block", AST::Block(vec![b(AST::Integer(1)), b(AST::Integer(2))])),
+        ("no-top-wrapper-print", AST::Print { format: "x\\n".into(), arguments: vec![] }),
+        ("top-inside-top", AST::Top(vec![b(AST::Top(vec![b(AST::Integer(1))])), b(AST::Print { format: "~\\n".into(), arguments: vec![b(AST::Integer(2))] })])),
+        ("top-inside-block", AST::Top(vec![b(AST::Block(vec![b(AST::Top(vec![]))]))])),
+        ("function-only", AST::Top(vec![b(AST::Function { name: id("f"), parameters: vec![], body: b(AST::Null) })])),
+        ("function-inside-block", AST::Top(vec![b(AST::Block(vec![b(AST::Function { name: id("f"), parameters: vec![], body: b(AST::Integer(1)) })])), b(AST::CallFunction { name: id("f"), arguments: vec![] })])),
+        ("function-inside-function", AST::Top(vec![b(AST::Function { name: id("f"), parameters: vec![], body: b(AST::Function { name: id("g"), parameters: vec![], body: b(AST::Integer(1)) }) })])),
+        ("object-without-members", AST::Top(vec![b(AST::Object { extends: b(AST::Null), members: vec![] })])),
+        ("object-with-a-non-member", AST::Top(vec![b(AST::Object { extends: b(AST::Null), members: vec![b(AST::Integer(1))] })])),
+        ("print-empty-format", AST::Top(vec![b(AST::Print { format: String::new(), arguments: vec![] })])),
+        ("loop-of-empty-block", AST::Top(vec![b(AST::Loop { condition: b(AST::Boolean(false)), body: b(AST::Block(vec![])) })])),
+        ("conditional-of-empty-blocks", AST::Top(vec![b(AST::Conditional { condition: b(AST::Boolean(true)), consequent: b(AST::Block(vec![])), alternative: b(AST::Block(vec![])) })])),
+        ("variable-named-like-a-temporary", AST::Top(vec![b(AST::Variable { name: id("::size_0"), value: b(AST::Integer(1)) }), b(AST::Array { size: b(AST::Integer(1)), value: b(AST::Block(vec![b(AST::Integer(2))])) })])),
+        ("empty-identifier", AST::Top(vec![b(AST::Variable { name: id(""), value: b(AST::Integer(1)) }), b(AST::AccessVariable { name: id("") })])),
+    ]
+}
+
+fn judge_odd_ast(name: &str, ast: &crate::parser::AST, ctx: &mut Ctx) -> Judged {
+    ctx.eval();
+    let tag = if cfg!(debug_assertions) { "dev" } else { "release" };
+    let text = serde_json::to_string(ast).map_err(|e| Violation::new("harness-error", e.to_string(), json!({})))?;
+    let case = || json!({"odd_ast": name, "ast_json": text});
+    // in-process, five times: all refusals, or all the same bytes
+    let mut outcomes: Vec<Option<Vec<u8>>> = vec![];
+    for _ in 0..5 {
+        outcomes.push(fmlrun::compile(ast).and_then(|p| fmlrun::serialize(&p)).ok());
+    }
+    if outcomes.iter().any(|o| o != &outcomes[0]) {
+        return ctx.settle(Violation::new("compile-nondeterministic", format!("hand-written AST `{}` compiles differently from one time to the next in one process ({} engine)", name, tag), case()).with("where", "in-process"));
+    }
+    let res: Result<(), Violation> = SCRATCH.with(|s| {
+        let mut s = s.borrow_mut();
+        if s.is_none() {
+            *s = Some(cli::Scratch::new("C11", tag));
+        }
+        let sc = s.as_mut().unwrap();
+        let fjson = sc.file("odd.json");
+        std::fs::write(&fjson, &text).unwrap();
+        let herr = |e: String| Violation::new("harness-error", e, json!({}));
+        let mut seen: Vec<(String, bool, Vec<u8>)> = vec![];
+        for (bin, btag) in [(cli::fml_release(), "release"), (cli::fml_debug(), "debug"), (cli::fml_release(), "release"), (cli::fml_debug(), "debug")].iter() {
+            let fo = sc.file("odd.bc");
+            let _ = std::fs::remove_file(&fo);
+            let o = cli::run_fml(bin, &["compile", fjson.to_str().unwrap(), "-o", fo.to_str().unwrap()]).map_err(|e| herr(e.to_string()))?;
+            if let cli::Status::Signal(sig) = o.status {
+                return Err(Violation::new("compile-nondeterministic", format!("hand-written AST `{}`: `fml compile` ({} binary) dies on signal {}", name, btag, sig), case()).with("where", "processes"));
+            }
+            let bytes = if o.status.success() { std::fs::read(&fo).unwrap_or_default() } else { vec![] };
+            seen.push((btag.to_string(), o.status.success(), bytes));
+        }
+        for x in &seen[1..] {
+            if x.1 != seen[0].1 || x.2 != seen[0].2 {
+                return Err(Violation::new(
+                    "compile-nondeterministic",
+                    format!("hand-written AST `{}`: `fml compile` gives {} / {} bytes in the {} binary and {} / {} bytes in the {} binary", name, if seen[0].1 { "success" } else { "refusal" }, seen[0].2.len(), seen[0].0, if x.1 { "success" } else { "refusal" }, x.2.len(), x.0),
+                    case(),
+                )
+                .with("where", "processes"));
+            }
+        }
+        // and like this engine
+        let mine = outcomes[0].clone();
+        if mine.is_some() != seen[0].1 || (mine.is_some() && mine.as_ref().unwrap() != &seen[0].2) {
+            return Err(Violation::new("compile-nondeterministic", format!("hand-written AST `{}`: the {} engine {} it, `fml compile` ({} binary) {}", name, tag, if mine.is_some() { "compiles" } else { "refuses" }, seen[0].0, if seen[0].1 { "compiles it (to other bytes, if both compile)" } else { "refuses it" }), case()).with("where", "processes"));
+        }
+        Ok(())
+    });
+    if let Err(v) = res {
+        return ctx.settle(v);
+    }
+    ctx.label("hand-written-ast");
+    ctx.label(&format!("engine:{}", tag));
+    ctx.nontrivial(format!("odd|{}|{}", name, tag).as_bytes());
+    Ok(())
+}
+
 impl Property for C11 {
     fn id(&self) -> &'static str {
         "C11"
@@ -299,6 +388,14 @@ impl Property for C11 {
             }
         }
         // programs that sit on the widths of the bytecode format: accepted or refused, but alike
+        for (i, (name, ast)) in odd_asts().iter().enumerate() {
+            if !ctx.shard_mine(i + 2) {
+                continue;
+            }
+            if let Err(v) = judge_odd_ast(name, ast, ctx) {
+                out.push(v);
+            }
+        }
         let mut limit_programs = crate::gen::limits::programs();
         if ctx.tier == Tier::Thorough {
             limit_programs.extend(crate::gen::limits::huge_programs());
@@ -333,6 +430,11 @@ impl Property for C11 {
         if let Some(t) = case["tape"].as_str() {
             if let Some(bytes) = crate::tape::unhex(t) {
                 return self.judge_tape(&bytes, ctx);
+            }
+        }
+        if let Some(name) = case["odd_ast"].as_str() {
+            if let Some((n, ast)) = odd_asts().into_iter().find(|(n, _)| *n == name) {
+                return judge_odd_ast(n, &ast, ctx);
             }
         }
         if let Some(src) = case["source"].as_str() {
